@@ -1,33 +1,64 @@
 (* C15 - Sessions see one committed state; readers and the writer exclude each other
-   (model of the access-lock protocol of lib.rs). *)
+   (model of the access-lock protocol of lib.rs).  A change set carries the commit count its session
+   was taken on ([ver]); the check under the write guard compares the state AND that count. *)
 From Nomt Require Import Base Locks Base_proofs Locks_proofs.
 
-Theorem C15_excl : forall c n ls s t b r,
-  lrun (linit c n) ls s -> nth t (threads s) TIdle = TWriting b r ->
-  forall t', (exists snap, nth t' (threads s) TIdle = TSession snap) -> False.
+Theorem C15_excl : forall c n ls s t b r v,
+  lrun (linit c n) ls s -> nth t (threads s) TIdle = TWriting b r v ->
+  forall t', (exists snap v', nth t' (threads s) TIdle = TSession snap v') -> False.
 Proof. exact Locks_proofs.excl. Qed.
 Print Assumptions C15_excl.
 
-Theorem C15_snapshot : forall c n ls s t snap k v ls' s',
-  lrun (linit c n) ls s -> nth t (threads s) TIdle = TSession snap ->
-  lrun s ls' s' -> nth t (threads s') TIdle = TSession snap ->
+Theorem C15_snapshot : forall c n ls s t snap ver k v ls' s',
+  lrun (linit c n) ls s -> nth t (threads s) TIdle = TSession snap ver ->
+  lrun s ls' s' -> nth t (threads s') TIdle = TSession snap ver ->
   (forall l, In l ls' -> l <> LEnd t /\ l <> LFinish t) ->
   forall s'', lstep s' (LRead t k v) s'' -> v = get snap k.
 Proof. exact Locks_proofs.snapshot. Qed.
 Print Assumptions C15_snapshot.
 
 Theorem C15_commit_ok_effect : forall s t s', lstep s (LCommitOk t) s' ->
-  exists b r, nth t (threads s) TIdle = TWriting b r /\ lcur s = b /\ lcur s' = r.
+  exists b r v, nth t (threads s) TIdle = TWriting b r v /\ lcur s = b /\ lver s = v /\
+                lcur s' = r /\ lver s' = (lver s + 1)%N.
 Proof. exact Locks_proofs.commit_ok_effect. Qed.
 Print Assumptions C15_commit_ok_effect.
 
 Theorem C15_commit_stale_effect : forall s t s', lstep s (LCommitStale t) s' ->
-  lcur s' = lcur s /\ exists b r, nth t (threads s) TIdle = TWriting b r /\ lcur s <> b.
+  lcur s' = lcur s /\ lver s' = lver s /\
+  exists b r v, nth t (threads s) TIdle = TWriting b r v /\ ~ (lcur s = b /\ lver s = v).
 Proof. exact Locks_proofs.commit_stale_effect. Qed.
 Print Assumptions C15_commit_stale_effect.
 
+Theorem C15_commit_decided : forall s t b r v, nth t (threads s) TIdle = TWriting b r v ->
+  ((exists s', lstep s (LCommitOk t) s') <-> (lcur s = b /\ lver s = v)) /\
+  ((exists s', lstep s (LCommitStale t) s') <-> ~ (lcur s = b /\ lver s = v)).
+Proof. exact Locks_proofs.commit_decided. Qed.
+Print Assumptions C15_commit_decided.
+
+Theorem C15_aba_stale : forall c n ls0 s t b r v ls s',
+  lrun (linit c n) ls0 s -> nth t (threads s) TIdle = TFinished b r v ->
+  lrun s ls s' -> (exists t', In (LCommitOk t') ls) ->
+  nth t (threads s') TIdle = TWriting b r v ->
+  (forall s'', ~ lstep s' (LCommitOk t) s'') /\
+  (exists s'', lstep s' (LCommitStale t) s'' /\ lcur s'' = lcur s' /\ lver s'' = lver s').
+Proof. exact Locks_proofs.aba_stale. Qed.
+Print Assumptions C15_aba_stale.
+
+Example C15_aba_run_example :
+  let k := [true] in
+  exists s', lrun (linit [] 2)
+     [LBegin 0; LFinish 0;
+      LBegin 1; LFinish 1; LAcquire 1; LCommitOk 1;
+      LBegin 1; LFinish 1; LAcquire 1; LCommitOk 1;
+      LAcquire 0] s' /\
+    lcur s' = [] /\ nth 0 (threads s') TIdle = TWriting [] [(k, 7%N)] 0%N /\ lver s' = 2%N /\
+    (forall s'', ~ lstep s' (LCommitOk 0) s'') /\
+    (exists s'', lstep s' (LCommitStale 0) s'' /\ lcur s'' = [] /\ lver s'' = 2%N).
+Proof. exact Locks_proofs.aba_run_example. Qed.
+Print Assumptions C15_aba_run_example.
+
 Theorem C15_only_commit_changes : forall s l s', lstep s l s' ->
-  (forall t, l <> LCommitOk t) -> lcur s' = lcur s.
+  (forall t, l <> LCommitOk t) -> lcur s' = lcur s /\ lver s' = lver s.
 Proof. exact Locks_proofs.only_commit_changes. Qed.
 Print Assumptions C15_only_commit_changes.
 
